@@ -1102,6 +1102,71 @@ func rule168(r *core.Run) {
 	if n < 2 {
 		r.Unresolved("R16.8: %d option stores found (expected 2)", n)
 	}
+	// each option is total: whatever its argument, it returns a function that stores that argument
+	// into its field, unconditionally — an option given later overrides one given earlier (options
+	// are applied in order; one that returns a no-op for "off" cannot undo an earlier "on")
+	for opt, fld := range owns {
+		of := mustFunc(r, opt)
+		if of == nil {
+			continue
+		}
+		bad := ""
+		for _, ret := range core.Returns(of) {
+			if len(ret.Results) != 1 {
+				continue
+			}
+			var leaves []ssa.Value
+			var flat func(v ssa.Value, d int)
+			flat = func(v ssa.Value, d int) {
+				switch x := v.(type) {
+				case *ssa.Phi:
+					if d < 4 {
+						for _, e := range x.Edges {
+							flat(e, d+1)
+						}
+						return
+					}
+				case *ssa.ChangeType:
+					flat(x.X, d+1)
+					return
+				}
+				leaves = append(leaves, v)
+			}
+			flat(ret.Results[0], 0)
+			for _, lf := range leaves {
+				mc, isMC := lf.(*ssa.MakeClosure)
+				if !isMC {
+					bad = "it can return something other than its own setter (" + lf.String() + ")"
+					continue
+				}
+				cf, _ := mc.Fn.(*ssa.Function)
+				okStore := false
+				if cf != nil {
+					core.Instrs(cf, func(in ssa.Instruction) {
+						st, isSt := in.(*ssa.Store)
+						if !isSt {
+							return
+						}
+						fa, isFA := st.Addr.(*ssa.FieldAddr)
+						if !isFA || r.P.FieldName(fa) != fld {
+							return
+						}
+						if _, isConst := st.Val.(*ssa.Const); isConst {
+							return // a fixed value, not the argument
+						}
+						if len(core.GuardsOf(st)) == 0 {
+							okStore = true
+						}
+					})
+				}
+				if !okStore {
+					bad = "a setter it returns does not store the argument into " + fld + " unconditionally"
+				}
+			}
+		}
+		r.Check(bad == "", "R16.8", key(opt, "total: stores its argument whatever its value"), r.P.Pos(of.Pos()), "every return is the setter of the argument",
+			"the option "+opt+" is not total ("+bad+"): given after an earlier use with another value it no longer overrides it, so the addressing mode depends on which values were given before")
+	}
 	// Server(): which middleware is installed for which option values — asked as reachability under
 	// assumed outcomes of the tests on the two fields, so the shape of the selection (if-chain, switch,
 	// mode enum computed by a helper) does not matter
